@@ -196,7 +196,7 @@ def counterexamples(dest, tdir, name, timeout=900):
            "--target-dir %s --harness %s 2>&1" % (tdir, name))
     rc, out, dt = sh(cmd, cwd=dest, timeout=timeout)
     ces = []
-    for m in re.finditer(r"/// Check for `(\w+)`: ([^\n]*)\n#\[test\]\nfn \w+\(\) \{\n\s+let concrete_vals: Vec<Vec<u8>> = vec!\[\n(.*?)\n\s+\];", out, re.S):
+    for m in re.finditer(r"/// Check for `(\w+)`: ([^\n]*)\n(?:///[^\n]*\n|\n)*#\[test\]\nfn \w+\(\) \{\n\s+let concrete_vals: Vec<Vec<u8>> = vec!\[\n(.*?)\n\s+\];", out, re.S):
         kind, desc, body = m.groups()
         vals = [[int(x) for x in v.split(",") if x.strip()] for v in re.findall(r"vec!\[([\d,\s]*)\]", body)]
         ces.append({"kind": kind, "check": desc.strip().strip('"'), "vals": vals})
